@@ -9,13 +9,13 @@ Open Scope Z_scope.
 (* ---------- traces ---------- *)
 (* all operations in order; the result is the endpoint afterwards and the concatenation of every
    event batch that `poll` handed to the caller *)
-Fixpoint run (dbg : bool) (s : ep) (ops : list op) : res (ep * list event) :=
+Fixpoint run_gen (fx : fixes) (dbg : bool) (s : ep) (ops : list op) : res (ep * list event) :=
   match ops with
   | [] => Ok (s, [])
   | o :: r =>
-    match step dbg o s with
+    match step_gen fx dbg o s with
     | Ok (s1, e1) =>
-      match run dbg s1 r with
+      match run_gen fx dbg s1 r with
       | Ok (s2, e2) => Ok (s2, e1 ++ e2)
       | Err => Err
       | Panic => Panic
@@ -24,6 +24,8 @@ Fixpoint run (dbg : bool) (s : ep) (ops : list op) : res (ep * list event) :=
     | Panic => Panic
     end
   end.
+(* the current code *)
+Definition run := run_gen current_code.
 
 (* ---------- the event grammar ----------
    Synchronizing(total=NUM_SYNC_PACKETS, count=1) .. Synchronizing(.., NUM_SYNC_PACKETS-1) . Synchronized .
@@ -65,35 +67,6 @@ Definition event_grammar (evs : list event) : Prop := recog (RSync 0) evs <> Non
 Definition is_disconnected (e : event) : bool := match e with EvDisconnected => true | _ => false end.
 Definition without_disconnected (evs : list event) : list event := filter (fun e => negb (is_disconnected e)) evs.
 Definition count_disconnected (evs : list event) : nat := length (filter is_disconnected evs).
-
-(* ---------- hypotheses on the caller (what P2PSession / SpectatorSession do) ----------
-   [disciplined dbg s must ops]:
-   (ii)  when a poll has reported Disconnected, the next operation on the endpoint is disconnect()
-         (handle_event calls disconnect_player_at_frame before anything else happens);
-   (iii) while a Disconnected event waits in the queue of an endpoint that is still Running (it was
-         raised by a peer's disconnect request or by send_input, and the caller has not polled yet):
-         - if the endpoint is not interrupted, it is polled no later than disconnect_notify_start
-           after the latest accepted message (else the poll appends NetworkInterrupted),
-         - if the endpoint is interrupted, no message is accepted (else NetworkResumed is appended). *)
-Definition op_allowed (s : ep) (must_disconnect : bool) (o : op) : Prop :=
-  (must_disconnect = true -> exists now, o = ODisconnect now) /\
-  (In EvDisconnected (u_event_queue s) -> u_state s = PRunning ->
-   match o with
-   | OPoll now _ _ => u_notify_sent s = false -> now <= u_last_recv_time s + u_notify_start s
-   | OMessage _ _ m => u_notify_sent s = true -> passes_filters s m = false
-   | _ => True
-   end).
-
-Fixpoint disciplined (dbg : bool) (s : ep) (must_disconnect : bool) (ops : list op) : Prop :=
-  match ops with
-  | [] => True
-  | o :: r =>
-    op_allowed s must_disconnect o /\
-    match step dbg o s with
-    | Ok (s1, e1) => disciplined dbg s1 (existsb is_disconnected e1) r
-    | _ => True
-    end
-  end.
 
 (* ---------- the handshake count ---------- *)
 (* a SyncReply handled while its nonce is outstanding: (nonce, magic of the packet) *)
